@@ -47,6 +47,9 @@ func propC06(w *World, r *Report) {
 	RunCovGate(w, r, applyFns)
 	RunEmptyRecord(w, r, applyFns)
 	RunKernPairFirst(w, r)
+	RunPairTarget(w, r, gt)
+	r.Floor("pairtarget", 5)
+	RunSkipMove(w, r)
 	r.Floor("emptyrecord", 2)
 	r.Floor("covgate", 15)
 	r.Floor("mapmiss", 10)
